@@ -7,7 +7,7 @@ if [ "${ROUND:-1}" = "2" ]; then SRC=/tmp/seed2-$ID-out/$M; DST=/verif/seeded/$I
 mkdir -p "$DST"; cp "$SRC/patch.diff" "$DST/"; cp "$SRC/meta.json" "$DST/agent_meta.json" 2>/dev/null; rm -rf "$DST/demo"; cp -r "$SRC/demo" "$DST/demo" 2>/dev/null
 echo "######## $ID $M"
 conf=$(/verif/tools/confirm_seed.sh "$SRC" 2>&1); echo "$conf"
-export RM=/var/tmp/repo-s2 VM=/var/tmp/verif-s
+export RM=${SEED_RM:-/var/tmp/repo-s2} VM=${SEED_VM:-/var/tmp/verif-s}
 res=$(/verif/tools/mutant.sh "$SRC/patch.diff" "$@" 2>&1 | grep -E "^(---|VIOLATION|KNOWN|INFRA|C[0-9]+ tier|  )" | cut -c1-420)
 echo "$res" | grep -E "^(---|C[0-9]+ tier|  )" | head -30
 python3 - "$ID" "$M" "$DST" <<PY
